@@ -1,0 +1,104 @@
+//go:build verif
+
+// Verification hook for /verif property C19 (one replication round makes a secondary equal to
+// the primary). Add-only, compiled only with `-tags verif`. Thin wrappers: they build the real
+// aclTypeReplicator implementations the way replicateACLType does (FetchLocal against a real
+// FSM/state store, the remote listing handed in by the caller in place of the cross-DC RPC),
+// call the real diffACLType / diffConfigEntries and hand back what the real code computed.
+// Nothing here decides anything.
+package consul
+
+import (
+	"github.com/hashicorp/consul/agent/consul/fsm"
+	"github.com/hashicorp/consul/agent/structs"
+)
+
+// VerifDiff is itemDiffResults with exported type name.
+type VerifDiff struct {
+	LocalDeletes  []string
+	LocalUpserts  []string
+	LocalSkipped  int
+	RemoteSkipped int
+}
+
+func verifDiffOf(r itemDiffResults) VerifDiff {
+	return VerifDiff{LocalDeletes: r.LocalDeletes, LocalUpserts: r.LocalUpserts, LocalSkipped: r.LocalSkipped, RemoteSkipped: r.RemoteSkipped}
+}
+
+// verifReplServer is a Server that only has the FSM the replicators' FetchLocal reads from.
+func verifReplServer(f *fsm.FSM) *Server { return &Server{fsm: f} }
+
+// VerifDiffACLPolicies: real FetchLocal on f, remote listing = remote, real diffACLType. When the
+// diff asks for upserts, fetch stands in for ACL.PolicyBatchRead; the real ensureRemoteConsistent
+// is run on its answer. Returns the diff, the local listing the diff saw (sorted by the code),
+// the pending updates and ensureRemoteConsistent's error.
+func VerifDiffACLPolicies(f *fsm.FSM, extraLocal structs.ACLPolicies, remote structs.ACLPolicyListStubs, lastRemoteIndex uint64,
+	fetch func(ids []string) structs.ACLPolicies) (VerifDiff, structs.ACLPolicies, []*structs.ACLPolicy, error) {
+	tr := &aclPolicyReplicator{}
+	if _, _, err := tr.FetchLocal(verifReplServer(f)); err != nil {
+		return VerifDiff{}, nil, nil, err
+	}
+	tr.local = append(tr.local, extraLocal...)
+	tr.remote = remote
+	res := diffACLType(tr, lastRemoteIndex)
+	var err error
+	if len(res.LocalUpserts) > 0 {
+		tr.updated = fetch(res.LocalUpserts)
+		_, _, err = tr.ensureRemoteConsistent(res.LocalUpserts)
+	}
+	return verifDiffOf(res), tr.local, tr.updated, err
+}
+
+// VerifDiffACLRoles: as above for roles; the pending updates come from the real FetchUpdated
+// (which re-uses the remote listing and needs no server).
+func VerifDiffACLRoles(f *fsm.FSM, extraLocal structs.ACLRoles, remote structs.ACLRoles, lastRemoteIndex uint64) (VerifDiff, structs.ACLRoles, []*structs.ACLRole, error) {
+	tr := &aclRoleReplicator{}
+	if _, _, err := tr.FetchLocal(verifReplServer(f)); err != nil {
+		return VerifDiff{}, nil, nil, err
+	}
+	tr.local = append(tr.local, extraLocal...)
+	tr.remote = remote
+	res := diffACLType(tr, lastRemoteIndex)
+	var err error
+	if len(res.LocalUpserts) > 0 {
+		if _, err = tr.FetchUpdated(nil, res.LocalUpserts); err == nil {
+			_, _, err = tr.ensureRemoteConsistent(res.LocalUpserts)
+		}
+	}
+	return verifDiffOf(res), tr.local, tr.updated, err
+}
+
+// VerifDiffACLTokens: as VerifDiffACLPolicies for tokens (FetchLocal lists global tokens only).
+func VerifDiffACLTokens(f *fsm.FSM, extraLocal structs.ACLTokens, remote structs.ACLTokenListStubs, lastRemoteIndex uint64,
+	fetch func(ids []string) structs.ACLTokens) (VerifDiff, structs.ACLTokens, []*structs.ACLToken, error) {
+	tr := &aclTokenReplicator{}
+	if _, _, err := tr.FetchLocal(verifReplServer(f)); err != nil {
+		return VerifDiff{}, nil, nil, err
+	}
+	tr.local = append(tr.local, extraLocal...)
+	tr.remote = remote
+	res := diffACLType(tr, lastRemoteIndex)
+	var err error
+	if len(res.LocalUpserts) > 0 {
+		tr.updated = fetch(res.LocalUpserts)
+		_, _, err = tr.ensureRemoteConsistent(res.LocalUpserts)
+	}
+	return verifDiffOf(res), tr.local, tr.updated, err
+}
+
+// VerifDiffConfigEntries lists the local entries like replicateConfig does and calls the real
+// diffConfigEntries. Returns (local listing as sorted by the code, deletions, updates).
+func VerifDiffConfigEntries(f *fsm.FSM, remote []structs.ConfigEntry, lastRemoteIndex uint64) ([]structs.ConfigEntry, []structs.ConfigEntry, []structs.ConfigEntry, error) {
+	s := verifReplServer(f)
+	_, local, err := s.fsm.State().ConfigEntries(nil, s.replicationEnterpriseMeta())
+	if err != nil {
+		return nil, nil, nil, err
+	}
+	deletions, updates := diffConfigEntries(local, remote, lastRemoteIndex)
+	return local, deletions, updates, nil
+}
+
+// VerifDiffConfigEntryLists calls the real diffConfigEntries on explicit lists.
+func VerifDiffConfigEntryLists(local, remote []structs.ConfigEntry, lastRemoteIndex uint64) ([]structs.ConfigEntry, []structs.ConfigEntry) {
+	return diffConfigEntries(local, remote, lastRemoteIndex)
+}
